@@ -35,3 +35,4 @@ def run(ctx):
     fz.residual_checked_against_basis(ctx)
     fz.thresholds_homogeneous(ctx)
     fz.noise_test_reference_global(ctx)
+    fz.interrupted_extension_advertises_nothing(ctx)
